@@ -4,7 +4,14 @@ def rcbin(pid, **kw):
     d.update(kw)
     return d
 
+CALNOTE = ['refcal (128-bit era algorithm) is the calendar oracle; validated at setup against glibc timegm/gmtime_r and its own inverse laws']
 CHECKS = {
+    'C04': {
+        'bins': [rcbin('C04')],
+        'shards': {'quick': 8, 'thorough': 16},
+        'time_limit': {'quick': 600, 'thorough': 3600},
+        'assumptions': CALNOTE,
+    },
     'C17': {
         'bins': [rcbin('C17')],
         'shards': {'quick': 8, 'thorough': 16},
